@@ -135,7 +135,7 @@ def replay(case):
 
 def main(tier, seed, t0):
     quick = tier == "quick"
-    col = core.run_shards(worker, [(seed * 1000 + 1700 + k, 150 if quick else 3000) for k in range(16)])
+    col = core.run_shards(worker, [(seed * 1000 + 1700 + k, 600 if quick else 8000) for k in range(16)])
     need = ["kind:body", "kind:listing", "form:quoted", "form:literal", "body:empty", "body:no-final-newline", "body:status-lookalike",
             "body:literal-lookalike", "active:quoted", "active:literal", "name:needs-escaping", "name:lookalike"]
     missing = [c for c in need if not col.classes.get(c)]
